@@ -155,6 +155,17 @@ def _prepare(repo, rep):
         for c in ast.walk(static_loops[0]))
     rep.check(ok, "R07.6", site, "static attributes are appended in written "
               "order", construct="static-order", where=L.where(f))
+    i18n_loops = [s for s, _, _ in stmts if isinstance(s, ast.For)
+                  and src(s.iter) == "i18n_attributes"]
+    dl = [s for s, _, _ in stmts if isinstance(s, ast.For)
+          and src(s.iter) == "dyn_attributes"]
+    rep.check(len(i18n_loops) == 1 and len(dl) == 1 and
+              i18n_loops[0].lineno > dl[0].lineno, "R07.6", site,
+              "names that only i18n:attributes mentions are added after the "
+              "tal:attributes entries were merged (statement names keep "
+              "their order; a name that tal:attributes supplies is not "
+              "pre-empted with its own name as text)",
+              construct="i18n-names-last", where=L.where(f))
     dyn_loops = [s for s, _, _ in stmts if isinstance(s, ast.For)
                  and src(s.iter) == "dyn_attributes"]
     ok = False
@@ -353,6 +364,49 @@ def _split_on_written_text(repo, rep):
                          src(early[0])[:60] if early else ""))
 
 
+def _history_and_undoubling(repo, rep):
+    # the HTML boolean defaults depend on the document type found in *this*
+    # body: write() decides it without consulting what an earlier body left
+    # on the instance
+    w = repo.func("chameleon.template.BaseTemplate.write")
+    stale = [src(n) for n in ast.walk(w.node)
+             if isinstance(n, ast.Attribute) and isinstance(n.ctx, ast.Load)
+             and src(n.value) == "self"
+             and n.attr in ("content_type", "content_encoding", "__dict__")]
+    rep.check(not stale, "R07.5", w.qualname, "write() derives the content "
+              "type from the new body (or the class default) alone",
+              construct="write-history-free", where=L.where(w),
+              detail=str(stale))
+    # ';;' stands for one ';' inside an entry: every expression taken from
+    # a split clause is un-doubled exactly once, on every branch
+    from .c11 import _chains
+    sp = repo.func("chameleon.tal.split_parts")
+    central = [n for n in ast.walk(sp.node) if isinstance(n, ast.Call)
+               and isinstance(n.func, ast.Attribute)
+               and n.func.attr == "replace" and len(n.args) == 2
+               and [getattr(a, "value", None) for a in n.args] == [";;", ";"]]
+    for q in ("chameleon.tal.parse_attributes", "chameleon.tal.parse_defines"):
+        f = repo.func(q)
+        outs = [c.args[-1] for c in ast.walk(f.node)
+                if isinstance(c, ast.Call) and isinstance(
+                    c.func, ast.Attribute) and c.func.attr == "append"
+                and c.args and isinstance(c.args[-1], ast.Tuple)]
+        bad = []
+        for tup in outs:
+            e = tup.elts[-1]        # the expression of the entry
+            for ch in _chains(f.node, e, tup.lineno + 1):
+                own = sum(1 for x in ch if x == "method:replace")
+                viasplit = "call:split_parts" in ch
+                total = own + (1 if (viasplit and central) else 0)
+                if viasplit and total != 1:
+                    bad.append("%s: %s" % (src(e), " <- ".join(ch)[:90]))
+        rep.check(bool(outs) and not bad, "R07.6", f.qualname, "every "
+                  "expression cut out of the clause has its ';;' un-doubled "
+                  "exactly once, whichever branch produced it",
+                  construct="undoubled-once:" + f.name, where=L.where(f),
+                  detail="; ".join(bad[:2]))
+
+
 def _delimited(repo, rep):
     """A computed value is written as name="value": the quote is never the
     empty quote of an unquoted static value (shared with C02), and a static
@@ -383,6 +437,7 @@ def _choice(repo, rep):
     _delimited(repo, rep)
     _dict_vs_in_place(repo, rep)
     _split_on_written_text(repo, rep)
+    _history_and_undoubling(repo, rep)
     f = repo.func(PROG + "_create_attributes_nodes")
     res = L.emission(repo, f.qualname)
     site = f.qualname
@@ -422,7 +477,9 @@ def _choice(repo, rep):
             kinds.add("interpolation")
             sub = [w for w in A.walk(inner) if isinstance(w, A.NodeV)
                    and w.kind == "Substitution"]
-            rep.check(interp and not has_expr and bool(sub) and
+            # ... only when it is *established* that no statement targets
+            # the attribute (a tal:attributes entry beats ${} in the text)
+            rep.check(interp and no_expr and not has_expr and bool(sub) and
                       A.show(sub[0].args[0]) == text_t, "R07.3", site,
                       "a static attribute containing ${ becomes an "
                       "Interpolation of its text", construct="interpolation",
